@@ -33,7 +33,10 @@ def mk_clo(spec):
     kind, hc = spec
     C = pyPRISM.closure
     cls = {'py': C.PercusYevick, 'hnc': C.HyperNettedChain, 'msa': C.MeanSphericalApproximation, 'ms': C.MartynovSarkisov}[kind]
-    return cls(apply_hard_core=bool(hc))
+    # the flag as user code produces it: a Python bool, or the numpy.bool_ that a comparison / np.any / np.all returns (alternating, deterministic)
+    _FLAG[0] += 1
+    return cls(apply_hard_core=(bool(hc) if _FLAG[0] % 2 else np.bool_(bool(hc))))
+_FLAG = [0]
 
 def mk_om(spec, kgrid=None):
     kind, N = spec[0], spec[1]; p = spec[2:]
@@ -49,8 +52,8 @@ def mk_om(spec, kgrid=None):
 def pairs_of(n):
     return [(i, j) for i in range(n) for j in range(i, n)]
 
-def build_system(sd):
-    n = sd['n']; types = TYPES[:n]
+def build_system(sd, types=None):
+    n = sd['n']; types = list(types) if types is not None else TYPES[:n]
     if sd.get('kT_assign'):
         s = pyPRISM.System(types, kT=sd['kT_assign']); s.kT = sd['kT']          # the documented attribute is (re-)assigned after construction (temperature sweeps)
     else:
@@ -64,8 +67,11 @@ def build_system(sd):
     for t, v in enumerate(sd['dens']):
         if v is not None and t not in grp[1:]: s.density[types[t]] = v
     if len(grp) >= 2: s.density[[types[t] for t in grp]] = sd['dens'][0]          # several types in ONE statement, as the last density assignment
+    order = sd.get('diam_order') or list(range(n))
+    for t in order:                                   # any assignment order, a type may be assigned again (the last value counts)
+        if sd['diam'][t] is not None: s.diameter[types[t]] = sd['diam'][t]
     for t, v in enumerate(sd['diam']):
-        if v is not None: s.diameter[types[t]] = v
+        if v is not None and t not in order: s.diameter[types[t]] = v
     prs = [sd['pairs'].get('%d%d' % (i, j), {}) for (i, j) in pairs_of(n)]
     for key, mk, table in (('pot', mk_pot, s.potential), ('clo', mk_clo, s.closure), ('om', mk_om, s.omega)):
         specs = [pr.get(key) for pr in prs]
@@ -260,6 +266,8 @@ def gen_system(rng, maxn=3, maxL=32, soft_ok=True, distinct=True):
         sd['pairs']['%d%d' % (i, j)] = {'pot': pot, 'clo': gen_clo(rng, pot[0]),
                                         'om': gen_om_diag(rng, L) if i == j else gen_om_off(rng, L)}
     if rng.random() < 0.3: sd['kT_assign'] = rng.choice([1.0, 0.5, 3.0, sd['kT'] * 2])
+    if n >= 2 and rng.random() < 0.4:
+        sd['diam_order'] = rng.sample(range(n), n) + ([0] if rng.random() < 0.5 else [])
     if n >= 2 and rng.random() < 0.25:
         k = rng.randint(2, n)
         for t in range(k): sd['dens'][t] = sd['dens'][0]
